@@ -74,10 +74,28 @@ def theorems():
     return '\n'.join(rows)
 
 
+def asbuilt():
+    from bv import common
+    out = []
+    for i in range(1, 21):
+        pid = 'C%02d' % i
+        mp = os.path.join(VERIF, 'harness', 'bv', 'props', pid.lower() + '.meta.json')
+        if not os.path.exists(mp):
+            continue
+        m = json.load(open(mp))
+        names = [n.split('.', 1)[-1] for n in common.theorem_names(pid)]
+        out.append('### %s (as built)\n' % pid)
+        out.append('*Technique:* %s\n' % m['technique'])
+        out.append('*Level claimed:* %s\n' % m['level_text'])
+        out.append('*Trusted / assumed / partial:* %s\n' % m['level_note'])
+        out.append('*Theorems (%d):* %s\n' % (len(names), ', '.join('`%s`' % n for n in names)))
+    return '\n'.join(out)
+
+
 def main():
     p = os.path.join(VERIF, 'DESIGN.md')
     s = open(p).read()
-    for name, fn in (('findings', findings), ('seeded', seeded), ('theorems', theorems)):
+    for name, fn in (('findings', findings), ('seeded', seeded), ('theorems', theorems), ('asbuilt', asbuilt)):
         a, b = '<!-- BEGIN:%s -->' % name, '<!-- END:%s -->' % name
         if a in s and b in s:
             s = s[:s.index(a) + len(a)] + '\n' + fn() + '\n' + s[s.index(b):]
